@@ -298,6 +298,49 @@ fn case(tier: Tier, case_no: usize, rng: &mut Rng, rep: &mut Report) {
             rep.sample(|| json!({"plugins": plugins, "batch_size": queries.len(), "expanded": expected_total, "parallelism": eff_par, "configured_parallelism": spec.parallelism, "delays_injected": delay, "max_in_flight": trace.max_inflight, "worker_threads": trace.n_threads, "error_responses": n_err, "first_completions": trace.completion.iter().take(6).collect::<Vec<_>>()}));
         }
     }
+    // ---- the bindings entry point (what the python package calls): a second application from the same TOML, queries
+    // and run configuration marshalled as JSON text, responses parsed back ----
+    if !cached && rng.chance(0.2) {
+        use routee_compass::app::bindings::CompassAppBindings;
+        rep.eval();
+        match catch(|| crate::mon::c15::Bound::from_config_toml_string(built.toml.clone(), built.config_path.to_string_lossy().to_string())) {
+            Ok(Ok(bound)) => {
+                let par = *rng.pick(&[1usize, 2, 3, 8, 16]);
+                let mut perm = queries.clone();
+                rng.shuffle(&mut perm);
+                let texts: Vec<String> = perm.iter().map(|q| q.to_string()).collect();
+                let replay = || {
+                    let mut r = base_replay.clone();
+                    r["batch"] = json!(perm);
+                    r["via"] = json!(format!("CompassAppBindings::run_queries, parallelism {par}"));
+                    r
+                };
+                set_app_sink(None);
+                match catch(|| bound.run_queries(texts.clone(), Some(json!({"parallelism": par}).to_string()))) {
+                    Err(pm) => rep.violate(&format!("C06|bindings|{}", panic_sig(&pm)), format!("run_queries panicked on a batch whose queries all run alone: {pm}"), replay),
+                    Ok(Err(e)) => rep.violate("C06|bindings|run-returns-err", format!("B4 run_queries returned Err for a batch whose queries all run alone: {e}"), replay),
+                    Ok(Ok(out)) => {
+                        let parsed: Vec<Value> = out.iter().filter_map(|t| serde_json::from_str(t).ok()).collect();
+                        if parsed.len() != out.len() {
+                            rep.violate("C06|bindings|response-text-does-not-parse", "a response string handed back by run_queries is not JSON".into(), replay);
+                        } else if parsed.len() != expected_total {
+                            rep.violate("C06|bindings|response-count", format!("B1 {} responses for {} expanded queries through run_queries", parsed.len(), expected_total), replay);
+                        } else {
+                            let got = multiset(&parsed);
+                            if got != reference {
+                                let d = first_difference(&reference, &got);
+                                rep.violate("C06|bindings|differs-from-alone", format!("B3 the responses of run_queries differ from the queries run alone: {d}"), replay);
+                            } else {
+                                rep.count("bindings_runs_confirmed", 1);
+                            }
+                        }
+                    }
+                }
+            }
+            Ok(Err(e)) => rep.violate("C06|bindings|load-error", format!("from_config_toml_string refused a configuration that CompassApp::try_from accepts: {e}"), || base_replay.clone()),
+            Err(pm) => rep.violate(&format!("C06|bindings|load|{}", panic_sig(&pm)), pm, || base_replay.clone()),
+        }
+    }
     for p in &plugins {
         rep.seen("plugins", p.clone());
     }
@@ -411,7 +454,7 @@ pub fn run(tier: Tier, seed: u64) -> MonOut {
     }
     MonOut {
         report: rep,
-        rule: "applications built from generated TOML (distance / speed traversal, turn delays, road classes or vehicle restrictions, small iteration limits that terminate long searches, plugins inject / grid_search / vertex_rtree / load_balancer haversine|numeric|categorical in that order, parallelism 1..32) x batches of 1..120 (thorough 300) queries tagged with unique qids: valid, unreachable, terminated, grid-search (1..9 expansions), and 15 % malformed of 16 classes; reference = every query run alone with parallelism 1; then 4 (thorough 6) batch runs per application with random parallelism override (1,2,3,4,5,7,8,15,16,17,32 or none), random permutation, and seeded yield/sleep injection at QueryStart / QueryEnd / BeforeWrite hook events; responses compared as a multiset of (qid+expansion, error text, route path, route cost, final state at 9 digits). non-trivial = batch of >= 6 queries for which >= 2 distinct completion orders were observed; distinct by application and batch".into(),
+        rule: "applications built from generated TOML (distance / speed traversal, turn delays, road classes or vehicle restrictions, small iteration limits that terminate long searches, plugins inject / grid_search / vertex_rtree / load_balancer haversine|numeric|categorical in that order, parallelism 1..32) x batches of 1..120 (thorough 300) queries tagged with unique qids: valid, unreachable, terminated, grid-search (1..9 expansions), and 15 % malformed of 16 classes; reference = every query run alone with parallelism 1; then 4 (thorough 6) batch runs per application with random parallelism override (1,2,3,4,5,7,8,15,16,17,32 or none), random permutation, and seeded yield/sleep injection at QueryStart / QueryEnd / BeforeWrite hook events; one run in five goes through a second application and CompassAppBindings::run_queries (queries, run configuration and responses as JSON text); responses compared as a multiset of (qid+expansion, error text, route path, route cost, final state at 9 digits). non-trivial = batch of >= 6 queries for which >= 2 distinct completion orders were observed; distinct by application and batch".into(),
         assumptions: vec![
             "the reference for a query is the same application answering it alone (parallelism 1)".into(),
             "iteration limits (deterministic messages) are used for terminated queries; runtime limits are not, their outcome is time dependent by design".into(),
